@@ -204,8 +204,35 @@ def segmModelExpect (d : Nat) (fn : String) (args out : List String) : Option St
     judge (segLength2 A B) ((segDirection2 A B).map fun v => [v.x, v.y])
   | _ => none
 
+def fcontacts (l : List (C14.Contact2 Float)) : List String :=
+  s!"{l.length}" :: l.flatMap fun c => [ff c.p1.x, ff c.p1.y, ff c.p2.x, ff c.p2.y, ff c.dist]
+
+/-- `pff2` / `pfv2`: bit-exact against `faceFaceContacts2` / `faceVertexContacts2`.  For `pfv2` a zero denominator
+(`normal1 ⟂ sep_axis1`, in particular a zero-length face) is outside the documented precondition ("we already know that at
+least one contact exists" along `sep_axis1`): skipped, the division is unguarded (`faceVertexContacts2_zero_face_nan`). -/
+def pfeatExpect (fn : String) (args out : List String) : Option String :=
+  if fn == "pff2" then
+    let p : P (List (C14.Contact2 Float)) := do
+      let _ ← tok; let a1 ← pv2; let b1 ← pv2; let a2 ← pv2; let b2 ← pv2; let m ← piso2; let n ← pv2; let fl ← pbool; pend
+      pure (faceFaceContacts2 m a1 b1 a2 b2 n fl)
+    match run p args with
+    | none => some "skip unparsable-input"
+    | some l => if out.drop 1 == fcontacts l then none
+                else some s!"fail non-finite-or-model-differs PolygonalFeature::face_face_contacts {tag fn args}"
+  else
+    let p : P (C14.Contact2 Float × Bool) := do
+      let _ ← tok; let a1 ← pv2; let b1 ← pv2; let v2 ← pv2; let m ← piso2; let sep ← pv2; let fl ← pbool; pend
+      let t := q2 (b1.sub a1); let s := q2 sep
+      pure (faceVertexContacts2 m a1 b1 v2 sep fl, (-t.y) * s.x + t.x * s.y == 0)
+    match run p args with
+    | none => some "skip unparsable-input"
+    | some (c, zeroDenom) =>
+      if zeroDenom then some "skip face-normal-perpendicular-to-separating-axis"
+      else if out.drop 1 == fcontacts [c] then none
+      else some s!"fail non-finite-or-model-differs PolygonalFeature::face_vertex_contacts {tag fn args}"
+
 def fns : List String :=
-  ["dist", "cp", "ct", "it", "cm", "cast", "nl", "ray", "proj", "mass", "bv", "trim", "segm", "clip", "clipn", "clipal", "cliphp", "sup"]
+  ["dist", "cp", "ct", "it", "cm", "cast", "nl", "ray", "proj", "mass", "bv", "trim", "segm", "clip", "clipn", "clipal", "cliphp", "sup", "pff", "pfv"]
 
 def handler (fn : String) : Option Handler :=
   let base := (fn.dropEnd 1).toString
@@ -218,7 +245,8 @@ def handler (fn : String) : Option Handler :=
     oracle := fun args out =>
       if out.contains "noshape" then "skip shape-constructor-refused" else
       -- bit-exact model comparisons first (they also cover the outputs next to a NaN that the generic clause reports)
-      match (if base == "trim" then trimModelExpect d fn args out else if base == "segm" then segmModelExpect d fn args out else none) with
+      match (if base == "trim" then trimModelExpect d fn args out else if base == "segm" then segmModelExpect d fn args out
+             else if base == "pff" || base == "pfv" then pfeatExpect fn args out else none) with
       | some v => v
       | none =>
       match generic fn args out with
